@@ -11,22 +11,36 @@ import (
 // Produces syntactically plausible, semantically odd programs.
 
 type gg struct {
-	t     *rapid.T
-	lines []string
-	odd   int // 0..100: probability (percent) of choosing an odd token text
+	t         *rapid.T
+	lines     []string
+	odd       int // 0..100: probability (percent) of choosing an odd token text
+	oddBudget int
 }
 
 func (g *gg) n(lo, hi int, label string) int { return rapid.IntRange(lo, hi).Draw(g.t, label) }
-func (g *gg) p(pct int, label string) bool  { return rapid.IntRange(0, 99).Draw(g.t, label) < pct }
-func (g *gg) emit(depth int, s string)       { g.lines = append(g.lines, strings.Repeat("    ", depth)+s) }
+func (g *gg) p(pct int, label string) bool   { return rapid.IntRange(0, 99).Draw(g.t, label) < pct }
+
+// oddp: choose an odd token here? Acceptance is multiplicative in the number of odd tokens, so each
+// program gets a small budget of them (many small programs with one or two oddities each).
+func (g *gg) oddp(label string) bool {
+	if g.oddBudget <= 0 {
+		return false
+	}
+	if g.p(g.odd, label) {
+		g.oddBudget--
+		return true
+	}
+	return false
+}
+func (g *gg) emit(depth int, s string) { g.lines = append(g.lines, strings.Repeat("    ", depth)+s) }
 
 var gNames = []string{"a", "Foo", "foo_bar", "x1", "Order", "Item", "App", "Svc", "get", "Login", "T", "id", "name"}
 var gOddNames = []string{"A%2EB", "%41bc", "a%zz", "If", "Else", "RETURN", "x-y", "a-", "_", "set", "sequence", "one", "int", "string", "any", "as", "import", "foo%", "%%", "a%2", "Ünï", "x..y"}
 var gWords = []string{"do", "thing", "validate", "the", "input", "x", "now", "a-b", "step2", "check"}
-var gOddWords = []string{"100%", "50%zz", "a<tag>", "%41", "x%2Ey", "émile"}
+var gOddWords = []string{"100%", "50%zz", "%41", "x%2Ey", "émile"}
 
 func (g *gg) name() string {
-	if g.p(g.odd, "oddname") {
+	if g.oddp("oddname") {
 		return pick(g.t, gOddNames, "oddnamev")
 	}
 	return pick(g.t, gNames, "namev")
@@ -36,7 +50,7 @@ func (g *gg) textLine() string {
 	k := g.n(2, 4, "tlwords")
 	var ws []string
 	for i := 0; i < k; i++ {
-		if g.p(g.odd, "oddword") {
+		if g.oddp("oddword") {
 			ws = append(ws, pick(g.t, gOddWords, "oddwordv"))
 		} else {
 			ws = append(ws, pick(g.t, gWords, "tlword"))
@@ -53,14 +67,14 @@ func (g *gg) nameStr() string {
 }
 
 func (g *gg) qstring() string {
-	if g.p(g.odd, "oddq") {
+	if g.oddp("oddq") {
 		return pick(g.t, []string{`"\x"`, `'it''s'`, `"%zz"`, `"üñí"`, `"unterminated`, `"[x]: ~y"`}, "oddqstr")
 	}
 	return pick(g.t, []string{`"v"`, `"some value"`, `""`, `'single'`, `"esc \" q"`, `"back\\slash"`, `"\n"`, `"a: b"`}, "qstr")
 }
 
 func (g *gg) digits() string {
-	if g.p(g.odd, "odddigits") {
+	if g.oddp("odddigits") {
 		return pick(g.t, []string{"0", "00", "99999999999999999999", "18446744073709551616", "9223372036854775808", "0000000000000000000000000000000000000001", "2147483648"}, "odddig")
 	}
 	return fmt.Sprint(g.n(0, 300, "dig"))
@@ -165,7 +179,7 @@ func (g *gg) types() string {
 
 func (g *gg) collectionType() string {
 	s := pick(g.t, []string{"set of ", "sequence of ", "Set Of ", "sequence  of "}, "coll") + g.types()
-	if g.p(g.odd, "collsize") {
+	if g.oddp("collsize") {
 		s += g.sizeOrArray()
 	}
 	return s
@@ -209,7 +223,7 @@ func (g *gg) field(depth, nest int) {
 	if g.p(10, "fielddoc") {
 		l += " " + g.qstring()
 	}
-	if g.p(15, "fieldannos") {
+	if !strings.HasSuffix(l, "\"") && !strings.HasSuffix(l, "'") && g.p(15, "fieldannos") {
 		g.emit(depth, l+":")
 		for i := 0; i < g.n(1, 2, "nfa"); i++ {
 			g.annotation(depth + 1)
@@ -342,10 +356,17 @@ func (g *gg) statement(depth, nest int) {
 	attrs := g.optAttribs(12)
 	switch k {
 	case 0: // if / else chain
-		g.emit(depth, pick(g.t, []string{"if ", "If ", "IF"}, "ifkw")+g.predicate()+":")
+		g.emit(depth, pick(g.t, []string{"if ", "If ", "IF "}, "ifkw")+g.predicate()+":")
 		g.stmts(depth+1, nest+1)
 		for g.p(40, "haselse") {
-			g.emit(depth, pick(g.t, []string{"else", "Else ", "else if "}, "elsekw")+pick(g.t, []string{"", g.predicate()}, "elsepred")+":")
+			switch {
+			case g.oddp("oddelse"):
+				g.emit(depth, pick(g.t, []string{"else", "Else ", "else if "}, "elsekw")+pick(g.t, []string{"", g.predicate()}, "elsepred")+":")
+			case g.p(50, "elseif"):
+				g.emit(depth, pick(g.t, []string{"else if ", "Else If "}, "elseifkw")+pick(g.t, []string{"x", "a == b", "cond is true", "not (a) [b]"}, "elseifpred")+":")
+			default:
+				g.emit(depth, pick(g.t, []string{"else", "Else"}, "elsekw2")+":")
+			}
 			g.stmts(depth+1, nest+1)
 		}
 	case 1:
@@ -354,7 +375,10 @@ func (g *gg) statement(depth, nest int) {
 	case 2:
 		g.emit(depth, "one of:")
 		for i := 0; i < g.n(1, 3, "ncases"); i++ {
-			lbl := pick(g.t, []string{g.name(), g.textLine(), g.qstring(), ""}, "caselabel")
+			lbl := pick(g.t, []string{g.name(), g.textLine(), g.qstring()}, "caselabel")
+			if g.oddp("emptycase") {
+				lbl = ""
+			}
 			g.emit(depth+1, lbl+":")
 			g.stmts(depth+2, nest+2)
 		}
@@ -561,7 +585,7 @@ func (g *gg) application() {
 }
 
 func GenGrammarProgram(t *rapid.T) string {
-	g := &gg{t: t, odd: rapid.IntRange(0, 12).Draw(t, "oddness")}
+	g := &gg{t: t, odd: rapid.IntRange(0, 12).Draw(t, "oddness"), oddBudget: rapid.IntRange(0, 3).Draw(t, "oddbudget")}
 	for i := 0; i < g.n(1, 3, "napps"); i++ {
 		g.application()
 		g.lines = append(g.lines, "")
